@@ -233,7 +233,9 @@ impl Pattern {
         match self {
             Pattern::Static(s) => {
                 let size = s.len();
-                if bytes.len() >= size && *s == unsafe {bytes.get_unchecked(..size)} {
+                if bytes.len() >= size && *s == unsafe {bytes.get_unchecked(..size)}
+                /* a static pattern must end at a segment boundary, not just be a byte prefix */
+                && (bytes.len() == size || *unsafe {bytes.get_unchecked(size)} == b'/') {
                     Some(unsafe {bytes.get_unchecked(size..)})
                 } else {
                     None
